@@ -2190,6 +2190,7 @@ func (m *Machine) processQueue() Result {
 			}
 		}
 
+		verifhook.Point("pq.after-subs")
 		t.CleanCache()
 	}
 
